@@ -72,16 +72,16 @@ Qed.
 
 (* ------------------------------------------------------------------ *)
 (* shapes of a well-formed entry                                       *)
-Lemma col_ok_cases sc name v :
-  col_ok sc (name, v) = true ->
+Lemma col_ok_cases {chk} sc name v :
+  col_ok_gen chk sc (name, v) = true ->
   (detect_column_type false v = Some CIgnore /\ detect_column_type true v = Some CIgnore /\
    column_strings v = [] /\ check_for_key s_HED v = false)
-  \/ (exists kvs s, v = JObj kvs /\ lookup s_HED kvs = Some (JStr s) /\ count ch_hash s = 1 /\
+  \/ (exists kvs s, v = JObj kvs /\ lookup s_HED kvs = Some (JStr s) /\ (chk = true -> count ch_hash s = 1) /\
                     string_ok sc name s = true)
   \/ (exists kvs hv, v = JObj kvs /\ lookup s_HED kvs = Some (JObj hv) /\ hv <> [] /\
-                     forallb (cat_entry_ok sc name) hv = true).
+                     forallb (cat_entry_ok_gen chk sc name) hv = true).
 Proof.
-  unfold col_ok. intros H.
+  unfold col_ok_gen. intros H.
   assert (Hnon : forall w, (forall kvs, w <> JObj kvs) -> negb (check_for_key s_HED w) = true ->
                  detect_column_type false w = Some CIgnore /\ detect_column_type true w = Some CIgnore /\
                  column_strings w = [] /\ check_for_key s_HED w = false).
@@ -90,7 +90,9 @@ Proof.
   destruct v; try (left; apply Hnon; [intros kvs0; discriminate | exact H]).
   destruct (lookup s_HED kvs) as [h|] eqn:El.
   - destruct h; try discriminate.
-    + right. left. apply andb_true_iff in H as [H1 H2]. apply Nat.eqb_eq in H1.
+    + right. left. apply andb_true_iff in H as [H1 H2].
+      assert (Hc : chk = true -> count ch_hash s = 1).
+      { intros ->. cbn [negb orb] in H1. apply Nat.eqb_eq. exact H1. }
       exists kvs, s. repeat split; assumption.
     + right. right. apply andb_true_iff in H as [H1 H2]. exists kvs, kvs0. repeat split; try assumption.
       destruct kvs0; [discriminate | discriminate].
@@ -98,12 +100,12 @@ Proof.
     destruct (negb (truthy (JObj kvs))); repeat split; try reflexivity; exact H.
 Qed.
 
-Lemma cat_entries_all_str sc name hv :
-  forallb (cat_entry_ok sc name) hv = true -> forallb is_str (map snd hv) = true.
+Lemma cat_entries_all_str {chk} sc name hv :
+  forallb (cat_entry_ok_gen chk sc name) hv = true -> forallb is_str (map snd hv) = true.
 Proof.
   induction hv as [|[k v] t IH]; simpl; intros H; [reflexivity|].
   apply andb_true_iff in H as [H1 H2]. rewrite (IH H2), andb_true_r.
-  unfold cat_entry_ok in H1. simpl in H1. destruct v; try discriminate. reflexivity.
+  unfold cat_entry_ok_gen in H1. simpl in H1. destruct v; try discriminate. reflexivity.
 Qed.
 
 (* a well-formed entry has the same column type with and without basic validation *)
@@ -111,39 +113,40 @@ Lemma col_ok_detect sc name v :
   col_ok sc (name, v) = true ->
   exists c, detect_column_type true v = Some c /\ detect_column_type false v = Some c.
 Proof.
-  intros H. destruct (col_ok_cases sc name v H) as [[H1 [H2 _]]|[[kvs [s [-> [El [Hc _]]]]]|[kvs [hv [-> [El [_ Hf]]]]]]].
+  intros H. unfold col_ok in H.
+  destruct (col_ok_cases sc name v H) as [[H1 [H2 _]]|[[kvs [s [-> [El [Hc _]]]]]|[kvs [hv [-> [El [_ Hf]]]]]]].
   - exists CIgnore. split; assumption.
-  - exists CValue. rewrite !(detect_str _ _ _ El), count_hash_has, Hc. split; reflexivity.
+  - exists CValue. rewrite !(detect_str _ _ _ El), count_hash_has, (Hc eq_refl). split; reflexivity.
   - exists CCategorical. rewrite !(detect_obj _ _ _ El), (cat_entries_all_str _ _ _ Hf). split; reflexivity.
 Qed.
 
-Lemma col_ok_strings sc name v s :
-  col_ok sc (name, v) = true -> In s (column_strings v) -> string_ok sc name s = true.
+Lemma col_ok_strings {chk} sc name v s :
+  col_ok_gen chk sc (name, v) = true -> In s (column_strings v) -> string_ok sc name s = true.
 Proof.
   intros H Hs. destruct (col_ok_cases sc name v H) as [[_ [_ [H3 _]]]|[[kvs [s0 [-> [El [_ Hok]]]]]|[kvs [hv [-> [El [_ Hf]]]]]]].
   - rewrite H3 in Hs. contradiction.
   - unfold column_strings in Hs. rewrite El in Hs. destruct Hs as [<-|[]]. exact Hok.
   - unfold column_strings in Hs. rewrite El in Hs. apply in_flat_map in Hs as [[k w] [Hkw Hs]].
-    rewrite forallb_forall in Hf. specialize (Hf _ Hkw). unfold cat_entry_ok in Hf. cbn [snd fst] in *.
+    rewrite forallb_forall in Hf. specialize (Hf _ Hkw). unfold cat_entry_ok_gen in Hf. cbn [snd fst] in *.
     destruct w; try contradiction. destruct Hs as [<-|[]].
     apply andb_true_iff in Hf as [_ Hf]. exact Hf.
 Qed.
 
 (* ------------------------------------------------------------------ *)
 (* A. validate_structure reports nothing                               *)
-Lemma cat_entries_ok sc name hv :
-  forallb (cat_entry_ok sc name) hv = true -> flat_map categorical_entry_issues hv = [].
+Lemma cat_entries_ok {chk} sc name hv :
+  forallb (cat_entry_ok_gen chk sc name) hv = true -> flat_map categorical_entry_issues hv = [].
 Proof.
   intros H. apply flat_map_nil. intros [k w] Hkw. rewrite forallb_forall in H. specialize (H _ Hkw).
-  unfold cat_entry_ok in H. cbn [snd fst] in H. destruct w; try discriminate.
+  unfold cat_entry_ok_gen in H. cbn [snd fst] in H. destruct w; try discriminate.
   apply andb_true_iff in H as [H _]. apply andb_true_iff in H as [H _]. apply andb_true_iff in H as [H1 H2].
   unfold categorical_entry_issues. destruct s; [discriminate|]. cbn [truthy negb is_str].
   apply negb_true_iff in H2. unfold mem_str, reserved_category_values. cbn [existsb].
   unfold s_NA in H2. rewrite H2. reflexivity.
 Qed.
 
-Lemma structure_col_clean sc name v :
-  name <> s_HED -> col_ok sc (name, v) = true -> validate_column_structure (name, v) = Ok [].
+Lemma structure_col_clean {chk} sc name v :
+  name <> s_HED -> col_ok_gen chk sc (name, v) = true -> validate_column_structure (name, v) = Ok [].
 Proof.
   intros Hn H. unfold validate_column_structure. rewrite (not_reserved_of_neq name Hn).
   destruct (col_ok_cases sc name v H) as [[H1 [_ [_ H4]]]|[[kvs [s [-> [El _]]]]|[kvs [hv [-> [El [Hne Hf]]]]]]].
@@ -160,27 +163,27 @@ Proof.
   rewrite (H a (or_introl eq_refl)), IH; [reflexivity|]. intros x Hx. apply H. right. exact Hx.
 Qed.
 
-Lemma struct_ok_names sc : struct_ok sc = true -> forall name v, In (name, v) sc -> name <> s_HED.
+Lemma struct_ok_names {chk} sc : struct_ok_gen chk sc = true -> forall name v, In (name, v) sc -> name <> s_HED.
 Proof.
-  unfold struct_ok. intros H name v Hin Heq. apply andb_true_iff in H as [H _].
+  unfold struct_ok_gen. intros H name v Hin Heq. apply andb_true_iff in H as [H _].
   apply negb_true_iff in H. subst name.
   assert (mem_str s_HED (map fst sc) = true).
   { apply mem_str_In. apply in_map_iff. exists (s_HED, v). split; [reflexivity | exact Hin]. }
   congruence.
 Qed.
 
-Lemma struct_ok_cols sc : struct_ok sc = true -> forall col, In col sc -> col_ok sc col = true.
+Lemma struct_ok_cols {chk} sc : struct_ok_gen chk sc = true -> forall col, In col sc -> col_ok_gen chk sc col = true.
 Proof.
-  unfold struct_ok. intros H col Hin. apply andb_true_iff in H as [_ H].
+  unfold struct_ok_gen. intros H col Hin. apply andb_true_iff in H as [_ H].
   rewrite forallb_forall in H. apply H. exact Hin.
 Qed.
 
-Lemma structure_clean sc : struct_ok sc = true -> validate_structure sc = Ok [].
+Lemma structure_clean {chk} sc : struct_ok_gen chk sc = true -> validate_structure sc = Ok [].
 Proof.
   intros H. unfold validate_structure.
   rewrite (mapM_map validate_column_structure (fun _ => []) sc).
   - cbn [bind]. f_equal. apply concat_all_nil. intros x Hx. apply in_map_iff in Hx as [c [<- _]]. reflexivity.
-  - intros [name v] Hin. apply (structure_col_clean sc).
+  - intros [name v] Hin. apply (structure_col_clean (chk := chk) sc).
     + apply (struct_ok_names sc H name v Hin).
     + apply (struct_ok_cols sc H _ Hin).
 Qed.
@@ -230,6 +233,14 @@ Proof.
   apply mem_str_In. apply in_or_app. right. left. reflexivity.
 Qed.
 
+Lemma spec_bearing_is_hed_column v : spec_bearing v = true -> is_hed_column v = true.
+Proof.
+  unfold spec_bearing, is_hed_column. destruct v; try discriminate.
+  destruct (lookup s_HED kvs) as [h|] eqn:El; [|discriminate]. destruct h; try discriminate; intros H.
+  - rewrite (detect_str true _ _ El). destruct (true && negb (has_hash s)); reflexivity.
+  - rewrite (detect_obj true _ _ El), H. reflexivity.
+Qed.
+
 Lemma hed_bearing_is_hed_column v : hed_bearing v = true -> is_hed_column v = true.
 Proof.
   unfold hed_bearing, is_hed_column. destruct (detect_column_type true v) as [[]|]; try discriminate; reflexivity.
@@ -243,7 +254,7 @@ Proof.
   apply mem_str_In. unfold possible_column_refs.
   assert (Hp : In m (all_hed_columns sc)).
   { unfold all_hed_columns. apply in_map_iff. exists (m, v). split; [reflexivity|].
-    apply filter_In. split; [exact Hin | apply hed_bearing_is_hed_column; exact Hb]. }
+    apply filter_In. split; [exact Hin | apply spec_bearing_is_hed_column; exact Hb]. }
   destruct (mem_str s_HED (all_hed_columns sc)); [exact Hp | apply in_or_app; left; exact Hp].
 Qed.
 
@@ -277,11 +288,12 @@ Proof.
   - rewrite (target_possible sc m Ht). reflexivity.
 Qed.
 
-Lemma refs_column_ok sc name v :
-  good fixed v -> col_ok sc (name, v) = true ->
+Lemma refs_column_ok {chk} sc name v :
+  (exists hs, ref_strings_of_column fixed v = Ok hs /\ map snd hs = column_strings v) ->
+  col_ok_gen chk sc (name, v) = true ->
   refs_column fixed (possible_column_refs sc) (name, v) = Ok ([], (name, col_refs v)).
 Proof.
-  intros Hg H. destruct (col_ok_ref_strings sc name v Hg H) as [hs [Hhs Hm]].
+  intros [hs [Hhs Hm]] H.
   unfold refs_column. rewrite Hhs. cbn [bind].
   assert (Hper : map (fun kv : str * str => refs_of_string (possible_column_refs sc) (snd kv)) hs
                  = map (fun kv : str * str => (@nil issue, find_refs (snd kv))) hs).
@@ -302,14 +314,16 @@ Proof.
   rewrite Hs. reflexivity.
 Qed.
 
-Lemma refs_clean sc :
-  (forall col, In col sc -> good fixed (snd col)) -> struct_ok sc = true -> validate_refs fixed sc = Ok [].
+Lemma refs_clean_gen {chk} sc :
+  (forall name v, In (name, v) sc ->
+     exists hs, ref_strings_of_column fixed v = Ok hs /\ map snd hs = column_strings v) ->
+  struct_ok_gen chk sc = true -> validate_refs fixed sc = Ok [].
 Proof.
   intros Hg H. unfold validate_refs.
   rewrite (mapM_map (refs_column fixed (possible_column_refs sc))
                     (fun col : str * json => (@nil issue, (fst col, col_refs (snd col)))) sc).
-  2:{ intros [name v] Hin. cbn [fst snd]. apply refs_column_ok.
-      - apply (Hg _ Hin). - apply (struct_ok_cols sc H _ Hin). }
+  2:{ intros [name v] Hin. cbn [fst snd]. apply (refs_column_ok (chk := chk)).
+      - apply (Hg _ _ Hin). - apply (struct_ok_cols sc H _ Hin). }
   cbn [bind]. f_equal.
   rewrite (flat_map_nil fst). 2:{ intros x Hx. apply in_map_iff in Hx as [c [<- _]]. reflexivity. }
   cbn [app]. unfold nested_issues. apply flat_map_nil. intros [n refs] Hcr.
@@ -331,6 +345,38 @@ Proof.
     destruct (col_refs v1); discriminate.
 Qed.
 
+Lemma refs_clean sc :
+  (forall col, In col sc -> good fixed (snd col)) -> struct_ok sc = true -> validate_refs fixed sc = Ok [].
+Proof.
+  intros Hg H. apply (refs_clean_gen (chk := true)); [|exact H].
+  intros name v Hin. apply (col_ok_ref_strings sc name v (Hg _ Hin)).
+  apply (struct_ok_cols (chk := true) sc H _ Hin).
+Qed.
+
+(* the code as it is now also screens value strings that lack '#', so the
+   screened strings of a column are all its strings whatever the '#' counts *)
+Lemma col_ok_ref_strings_now {chk} sc name v :
+  fixed = true -> col_ok_gen chk sc (name, v) = true ->
+  exists hs, ref_strings_of_column fixed v = Ok hs /\ map snd hs = column_strings v.
+Proof.
+  intros Hf H.
+  destruct (col_ok_cases sc name v H) as [[_ [H2 _]]|[[kvs [s [-> [El _]]]]|[kvs [hv [-> [El [_ Hc]]]]]]].
+  - rewrite (ref_strings_some fixed v CIgnore H2). apply typed_strings; [left; exact Hf | exact H2].
+  - unfold ref_strings_of_column, column_strings. rewrite (detect_str true _ _ El), El, Hf.
+    destruct (has_hash s); cbn [andb negb get_hed_strings hed_dict bind]; rewrite ?El; eexists; split; reflexivity.
+  - assert (Hd : detect_column_type true (JObj kvs) = Some CCategorical).
+    { rewrite (detect_obj true _ _ El), (cat_entries_all_str _ _ _ Hc). reflexivity. }
+    rewrite (ref_strings_some fixed _ CCategorical Hd). apply typed_strings; [left; exact Hf | exact Hd].
+Qed.
+
+Lemma refs_clean_but_hash sc :
+  fixed = true -> struct_ok_but_hash sc = true -> validate_refs fixed sc = Ok [].
+Proof.
+  intros Hf H. apply (refs_clean_gen (chk := false)); [|exact H].
+  intros name v Hin. apply (col_ok_ref_strings_now (chk := false) sc name v Hf).
+  apply (struct_ok_cols (chk := false) sc H _ Hin).
+Qed.
+
 
 (* ------------------------------------------------------------------ *)
 (* C. the string phase reports only what the string validators report  *)
@@ -338,16 +384,17 @@ Lemma col_ok_string_type sc name v c s :
   col_ok sc (name, v) = true -> detect_column_type false v = Some c -> In s (column_strings v) ->
   (c = CValue /\ count ch_hash s = 1) \/ (c = CCategorical /\ count ch_hash s = 0).
 Proof.
-  intros H Hd Hs.
+  intros H Hd Hs. unfold col_ok in H.
   destruct (col_ok_cases sc name v H) as [[_ [_ [H3 _]]]|[[kvs [s0 [-> [El [Hc _]]]]]|[kvs [hv [-> [El [_ Hf]]]]]]].
   - rewrite H3 in Hs. contradiction.
   - left. rewrite (detect_str false _ _ El) in Hd. cbn [andb] in Hd. inversion Hd.
-    unfold column_strings in Hs. rewrite El in Hs. destruct Hs as [<-|[]]. split; [reflexivity | exact Hc].
+    unfold column_strings in Hs. rewrite El in Hs. destruct Hs as [<-|[]]. split; [reflexivity | exact (Hc eq_refl)].
   - right. rewrite (detect_obj false _ _ El) in Hd. cbn [andb] in Hd. inversion Hd. split; [reflexivity|].
     unfold column_strings in Hs. rewrite El in Hs. apply in_flat_map in Hs as [[k w] [Hkw Hs]].
-    rewrite forallb_forall in Hf. specialize (Hf _ Hkw). unfold cat_entry_ok in Hf. cbn [snd fst] in *.
+    rewrite forallb_forall in Hf. specialize (Hf _ Hkw). unfold cat_entry_ok_gen in Hf. cbn [snd fst] in *.
     destruct w; try contradiction. destruct Hs as [<-|[]].
-    apply andb_true_iff in Hf as [Hf _]. apply andb_true_iff in Hf as [_ Hf]. apply Nat.eqb_eq. exact Hf.
+    apply andb_true_iff in Hf as [Hf _]. apply andb_true_iff in Hf as [_ Hf]. cbn [negb orb] in Hf.
+    apply Nat.eqb_eq. exact Hf.
 Qed.
 
 Lemma check_string_clean ds ct arc rs s :
@@ -856,3 +903,125 @@ Lemma same_tag_example :
   exists out, validate_sidecar true V0_defs V0_basic V0_defcount V0_hashes V0_full (JObj sc_hash_same_tag) = Ok out /\
               error_codes out = [c_PLACEHOLDER_INVALID].
 Proof. eexists. split; reflexivity. Qed.
+
+(* ------------------------------------------------------------------ *)
+(* the '#' faults in an otherwise well-formed sidecar: no early exit    *)
+Lemma cat_entry_ok_weaken sc name kv : cat_entry_ok_gen true sc name kv = true -> cat_entry_ok_gen false sc name kv = true.
+Proof.
+  unfold cat_entry_ok_gen. destruct (snd kv); try discriminate. intros H.
+  apply andb_true_iff in H as [H Hs]. apply andb_true_iff in H as [H _]. rewrite H, Hs. reflexivity.
+Qed.
+
+Lemma col_ok_weaken sc col : col_ok_gen true sc col = true -> col_ok_gen false sc col = true.
+Proof.
+  destruct col as [name v]. unfold col_ok_gen. destruct v; try (intros H; exact H).
+  destruct (lookup s_HED kvs) as [h|]; [|intros H; exact H]. destruct h; try (intros H; exact H).
+  - intros H. apply andb_true_iff in H as [_ H]. rewrite H. reflexivity.
+  - intros H. apply andb_true_iff in H as [H1 H2]. rewrite H1. cbn [andb].
+    apply forallb_forall. intros kv Hkv. rewrite forallb_forall in H2. apply cat_entry_ok_weaken. apply H2. exact Hkv.
+Qed.
+
+(* StructOK implies StructOK-but-for-'#' *)
+Lemma struct_ok_weaken sc : struct_ok sc = true -> struct_ok_but_hash sc = true.
+Proof.
+  unfold struct_ok, struct_ok_but_hash, struct_ok_gen. intros H. apply andb_true_iff in H as [H1 H2].
+  rewrite H1. cbn [andb]. apply forallb_forall. intros col Hc. rewrite forallb_forall in H2.
+  apply col_ok_weaken. apply H2. exact Hc.
+Qed.
+
+Lemma but_hash_no_early_exit sc out : struct_ok_but_hash sc = true -> ~ early_exit true sc out.
+Proof.
+  intros H [i1 [i2 [H1 [H2 [Ha _]]]]].
+  rewrite (structure_clean (chk := false) sc H) in H1. inversion H1; subst i1.
+  rewrite (refs_clean_but_hash true sc eq_refl H) in H2. inversion H2; subst i2. discriminate.
+Qed.
+
+Lemma screening_clean_no_early_exit fixed sc out i1 i2 :
+  validate_structure sc = Ok i1 -> validate_refs fixed sc = Ok i2 -> any_error (i1 ++ i2) = false ->
+  ~ early_exit fixed sc out.
+Proof.
+  intros H1 H2 Ha [j1 [j2 [J1 [J2 [Jb _]]]]]. rewrite H1 in J1. rewrite H2 in J2.
+  inversion J1; inversion J2; subst. congruence.
+Qed.
+
+Section N3.
+Variable V_defs : list str -> list issue.
+Variable V_basic : list str -> str -> list issue.
+Variable V_defcount : str -> nat.
+Variable V_hashes : list str -> str -> nat.
+Variable V_full : list str -> str -> list str -> list str -> list issue.
+Notation VS j := (validate_sidecar true V_defs V_basic V_defcount V_hashes V_full j).
+
+(* auditor's form: when the screening reports no error, the code is reported *)
+Lemma now_fault_value_hash_screened sc name kvs s i1 i2 :
+  validate_structure sc = Ok i1 -> validate_refs true sc = Ok i2 -> any_error (i1 ++ i2) = false ->
+  In (name, JObj kvs) sc -> lookup s_HED kvs = Some (JStr s) ->
+  V_defcount s = 0 -> (forall ds, V_hashes ds s = count ch_hash s) -> count ch_hash s <> 1 ->
+  exists out, VS (JObj sc) = Ok out /\ In c_PLACEHOLDER_INVALID (error_codes out).
+Proof.
+  intros H1 H2 Ha Hin El Hc Hh Hn.
+  destruct (now_fault_value_hash V_defs V_basic V_defcount V_hashes V_full sc name kvs s Hin El Hc Hh Hn)
+    as [out [Ho [Hp|He]]].
+  - exists out. split; assumption.
+  - exfalso. apply (screening_clean_no_early_exit true sc out i1 i2 H1 H2 Ha He).
+Qed.
+
+Lemma now_fault_category_hash_screened sc name kvs hv key s i1 i2 :
+  validate_structure sc = Ok i1 -> validate_refs true sc = Ok i2 -> any_error (i1 ++ i2) = false ->
+  In (name, JObj kvs) sc -> lookup s_HED kvs = Some (JObj hv) -> In (key, JStr s) hv ->
+  V_defcount s = 0 -> (forall ds, V_hashes ds s = count ch_hash s) -> count ch_hash s <> 0 ->
+  exists out, VS (JObj sc) = Ok out /\ In c_PLACEHOLDER_INVALID (error_codes out).
+Proof.
+  intros H1 H2 Ha Hin El Hkv Hc Hh Hn.
+  destruct (now_fault_category_hash V_defs V_basic V_defcount V_hashes V_full sc name kvs hv key s Hin El Hkv Hc Hh Hn)
+    as [out [Ho [Hp|He]]].
+  - exists out. split; assumption.
+  - exfalso. apply (screening_clean_no_early_exit true sc out i1 i2 H1 H2 Ha He).
+Qed.
+
+(* the statement's situation: a sidecar that obeys every structural rule
+   except the '#' counts -- PLACEHOLDER_INVALID is reported, no disjunct *)
+Lemma now_fault_value_hash_wellformed sc name kvs s :
+  struct_ok_but_hash sc = true ->
+  In (name, JObj kvs) sc -> lookup s_HED kvs = Some (JStr s) ->
+  V_defcount s = 0 -> (forall ds, V_hashes ds s = count ch_hash s) -> count ch_hash s <> 1 ->
+  exists out, VS (JObj sc) = Ok out /\ In c_PLACEHOLDER_INVALID (error_codes out).
+Proof.
+  intros H Hin El Hc Hh Hn.
+  destruct (now_fault_value_hash V_defs V_basic V_defcount V_hashes V_full sc name kvs s Hin El Hc Hh Hn)
+    as [out [Ho [Hp|He]]].
+  - exists out. split; assumption.
+  - exfalso. apply (but_hash_no_early_exit sc out H He).
+Qed.
+
+Lemma now_fault_category_hash_wellformed sc name kvs hv key s :
+  struct_ok_but_hash sc = true ->
+  In (name, JObj kvs) sc -> lookup s_HED kvs = Some (JObj hv) -> In (key, JStr s) hv ->
+  V_defcount s = 0 -> (forall ds, V_hashes ds s = count ch_hash s) -> count ch_hash s <> 0 ->
+  exists out, VS (JObj sc) = Ok out /\ In c_PLACEHOLDER_INVALID (error_codes out).
+Proof.
+  intros H Hin El Hkv Hc Hh Hn.
+  destruct (now_fault_category_hash V_defs V_basic V_defcount V_hashes V_full sc name kvs hv key s Hin El Hkv Hc Hh Hn)
+    as [out [Ho [Hp|He]]].
+  - exists out. split; assumption.
+  - exfalso. apply (but_hash_no_early_exit sc out H He).
+Qed.
+
+End N3.
+
+(* the faulty examples obey every rule but the '#' count *)
+Lemma but_hash_examples :
+  struct_ok_but_hash sc_hash0 = true /\ struct_ok sc_hash0 = false /\
+  struct_ok_but_hash sc_hash_same_tag = true /\ struct_ok sc_hash_same_tag = false /\
+  struct_ok_but_hash sc_good = true.
+Proof. repeat split; reflexivity. Qed.
+
+(* for entries obeying the '#' rules the specification-level notion of a
+   HED-bearing entry is the validator's *)
+Lemma spec_bearing_hed_bearing sc name v :
+  col_ok sc (name, v) = true -> spec_bearing v = true -> hed_bearing v = true.
+Proof.
+  intros H Hs. destruct (col_ok_detect sc name v H) as [c [Hc _]].
+  pose proof (spec_bearing_is_hed_column v Hs) as Hi. unfold is_hed_column in Hi. unfold hed_bearing.
+  rewrite Hc in *. destruct c; [discriminate | reflexivity | reflexivity].
+Qed.
